@@ -27,7 +27,7 @@ type jsonLine struct {
 }
 
 func jsubst(s string) string {
-	return strings.NewReplacer("^", "\x01", "$", "\n").Replace(s)
+	return strings.NewReplacer("^", "\x01", "$", "\n", "~", "é").Replace(s)
 }
 
 func replayJson(line []byte, a *Acc) {
@@ -65,6 +65,7 @@ func replayJson(line []byte, a *Acc) {
 			one("json:error", fmt.Sprintf("%v %v", err, erri))
 			continue
 		}
+		c.X = jsubst(c.X)
 		if string(b) != c.X {
 			one(fmt.Sprintf("json:bytes:%s:safe=%v", c.Shape, c.Safe), fmt.Sprintf("Json = %q, specification %q", b, c.X))
 			continue
@@ -94,6 +95,11 @@ func replayJson(line []byte, a *Acc) {
 			back, derr := mxj.NewMapJson(out)
 			if derr != nil || tagged.CanonGo(back) != orig {
 				one(fmt.Sprintf("json:roundtrip:%s:safe=%v", name, c.Safe), fmt.Sprintf("NewMapJson(%q) = %s (%v), original %s", out, tagged.CanonGo(back), derr, orig))
+			}
+			// ... and through the stream reader (its own document scanner), from a source without ReadByte
+			backr, rerr := mxj.NewMapJsonReader(hideByteReader{bytes.NewReader(out)})
+			if rerr != nil || tagged.CanonGo(backr) != orig {
+				one(fmt.Sprintf("json:roundtrip-reader:%s:safe=%v", name, c.Safe), fmt.Sprintf("NewMapJsonReader(%q) = %s (%v), original %s", out, tagged.CanonGo(backr), rerr, orig))
 			}
 			if c.Safe == bytes.ContainsAny(out, "<>&") && strings.ContainsAny(s, "<>&") {
 				one(fmt.Sprintf("json:html-chars:%s:safe=%v", name, c.Safe), fmt.Sprintf("%s = %q", name, out))
